@@ -174,8 +174,10 @@ class Scheduler(object):
             self._finish("quiescent")
             if leaving:
                 return
-            cur.sem.acquire()
-            raise SchedAbort()
+            cur.sem.acquire()        # parked until a later phase makes this thread enabled and picks it
+            if self.aborted:
+                raise SchedAbort()
+            return
         try:
             nxt = self._choose(en, None if leaving else cur, kind, desc)
         except (ReplayDivergence, HarnessStuck) as e:
